@@ -45,6 +45,10 @@ def uncovered_changes(repo, changed_files, commit):
             m = re.match(r"\s*//@extract\s+(\S+)\s*::\s*(.+)$", l.strip())
             if m: wanted.setdefault(m.group(1), set()).add(m.group(2).strip())
     out, cache = [], {}
+    try:      # the baseline commit must be readable from this tree's repository; otherwise there is no baseline text to compare with
+        if subprocess.run(["git", "-C", repo, "cat-file", "-e", "%s^{commit}" % commit], capture_output=True, timeout=30).returncode != 0: return []
+    except Exception:
+        return []
     for f in changed_files:
         full = os.path.join(repo, f)
         cur = open(full, errors="replace").read() if os.path.exists(full) else ""
